@@ -595,6 +595,39 @@ def fam_staged_mix(g):
     yield from g.commit_all()
 
 
+def fam_pick_during_rebase(g):
+    """an interactive rebase stops for editing; while it is stopped the person cherry-picks a fix from another branch
+    (or starts a cherry-pick that conflicts and gives it up); then the rebase is continued"""
+    rng = g.rng
+    files = g.worktree_files()
+    path = rng.choice(files) if files else None
+    base = g.branch()
+    yield g.git("checkout", "-q", "-b", "fix")
+    yield g.ai_edit(new_file=True)
+    yield from g.commit_all()
+    yield g.git("checkout", "-q", base)
+    yield from fam_feature_branch(g, 2, path, rewritten=True, distinct_files=rng.random() < 0.5)
+    yield g.git("checkout", "-q", base)
+    # (upstream stays out of the branch's files: a conflict stop later on would have to be aborted, and the note the
+    # cherry-pick wrote in between is a legitimate change that the abort oracle cannot tell from damage)
+    yield g.human_edit(path="upstream/u%d.txt" % g.ex.fresh_id(), kinds=["insert"])
+    yield from g.commit_all()
+    yield g.git("checkout", "-q", "feat")
+    plan = rng.choice(["edit:0", "edit:0", "edit:1"])
+    yield g.git("rebase", "-i", base, env=g.seq_env(plan), rewrite=True, plan=plan)
+    if g.in_progress() == "rebase" and not g.has_conflicts():
+        g.ex.probe("pick_during_rebase.stopped")
+        yield g.git("cherry-pick", "fix", rewrite=True)
+        if g.has_conflicts():
+            yield g.git("cherry-pick", "--abort", aborts=True)
+        yield g.git("rebase", "--continue", env={"GIT_EDITOR": "true"}, check=True)
+    g.ex.gen_state["aborted"] = False
+    if g.in_progress():
+        # a further stop (name clash of two new files, a second edit step): given up, without the abort oracle - the
+        # note the cherry-pick wrote in between is a legitimate change it could not tell from damage
+        yield g.git("rebase", "--abort")
+
+
 def fam_switch_carry(g):
     rng = g.rng
     yield from g.some_edits(n_ai=(1, 2), n_human=(0, 1))
@@ -1288,6 +1321,7 @@ FAMILIES = {
     "worktree_rebases": fam_worktree_rebases,
     "stash_two": fam_stash_two,
     "staged_mix": fam_staged_mix,
+    "pick_during_rebase": fam_pick_during_rebase,
 }
 
 # families whose outcome no property promises two-sidedly (a reverted-and-restored or renamed line)
